@@ -22,3 +22,137 @@ def grid_metric(p):
         ex, ey = 1.0 / pm[J, I], 1.0 / pn[J, I]
         bad = bool(np.max(np.abs(dx - ex)) > 1e-9 or np.max(np.abs(dy - ey)) > 1e-9)
         return dict(reproduced=bad, observed=[np.asarray(dx).tolist(), np.asarray(dy).tolist()], expected=[ex.tolist(), ey.tolist()])
+
+
+def vertical_bounded(p):
+    """Bounded stand-in for C12 (incl. Vstretching 2, not proved): ordering, bounds, interleave, lookup consistency."""
+    from ladim.ROMS import s_stretch, sdepth, z2s
+
+    tier = p.get("tier", "quick")
+    Ns = [1, 2, 3, 10, 35, 60] if tier == "quick" else list(range(1, 61))
+    cases, failures, samples = 0, [], []
+    rng = np.random.default_rng(p.get("seed", 0))
+    for N in Ns:
+        for vs in (1, 2, 4):
+            for ts in (0.1, 1.0, 3.0, 5.0, 7.0, 10.0):
+                for tb in ((0.0, 0.5, 1.0) if vs == 1 else (0.1, 0.5, 1.0, 2.0, 4.0)):
+                    Cr = s_stretch(N, ts, tb, stagger="rho", Vstretching=vs)
+                    Cw = s_stretch(N, ts, tb, stagger="w", Vstretching=vs)
+                    cases += 1
+                    bad = None
+                    if np.any(np.diff(Cr) <= 0) or np.any(np.diff(Cw) <= 0):
+                        bad = "stretching curve not strictly increasing"
+                    elif Cr.min() < -1 or Cr.max() > 0 or abs(Cw[0] + 1) > 1e-12 or abs(Cw[-1]) > 1e-12:
+                        bad = "stretching curve range / end points"
+                    elif np.any(Cw[:-1] >= Cr) or np.any(Cr >= Cw[1:]):
+                        bad = "C_w and C_r do not interleave"
+                    if bad:
+                        failures.append(dict(N=N, Vstretching=vs, theta_s=ts, theta_b=tb, what=bad))
+                        continue
+                    for vt in (1, 2):
+                        H = np.array([[1.0, 7.0, 50.0], [300.0, 2500.0, 5000.0]])
+                        for hc in (0.0, 1.0) if vt == 1 else (0.0, 10.0, 250.0):
+                            zr = sdepth(H, hc, Cr, stagger="rho", Vtransform=vt)
+                            zw = sdepth(H, hc, Cw, stagger="w", Vtransform=vt)
+                            cases += 1
+                            bad = None
+                            if np.any(np.diff(zr, axis=0) <= 0) or np.any(np.diff(zw, axis=0) <= 0):
+                                bad = "levels not strictly increasing"
+                            elif np.any(zr < -H - 1e-9) or np.any(zr > 1e-9):
+                                bad = "rho levels outside [-h, 0]"
+                            elif np.max(np.abs(zw[0] + H)) > 1e-9 or np.max(np.abs(zw[-1])) > 1e-9:
+                                bad = "w levels do not start at -h / end at 0"
+                            elif np.any(zw[:-1] >= zr) or np.any(zr >= zw[1:]):
+                                bad = "rho and w levels do not interleave"
+                            elif N >= 2:
+                                X = np.array([0.2, 1.4, 2.0, 0.6, 1.0])
+                                Y = np.array([0.3, 0.9, 0.0, 1.2, 0.51])
+                                hh = H[Y.round().astype(int), X.round().astype(int)]
+                                Z = np.array([-1.0, 0.0, 0.5, 1.0, 1.3]) * hh
+                                K, A = z2s(zr, X, Y, Z)
+                                col = zr[:, Y.round().astype(int), X.round().astype(int)]
+                                pp = np.arange(len(X))
+                                got = A * col[K - 1, pp] + (1 - A) * col[K, pp]
+                                exp = np.clip(-Z, col[0], col[-1])
+                                if np.any(K < 1) or np.any(K >= N) or np.any(A < 0) or np.any(A > 1) or np.max(np.abs(got - exp)) > 1e-6 * (1 + np.abs(exp).max()):
+                                    bad = "level lookup inconsistent"
+                            if bad:
+                                failures.append(dict(N=N, Vstretching=vs, Vtransform=vt, theta_s=ts, theta_b=tb, hc=hc, what=bad))
+    samples.append(dict(N=35, Vstretching=2, theta_s=7.0, theta_b=0.5, Vtransform=2, checks="ordering, range, end points, interleave, lookup"))
+    return dict(cases=cases, failures=failures[:10], samples=samples, bound=f"N in {Ns if len(Ns) < 10 else '1..60'}, theta_s in 0.1..10, theta_b in 0..1 (V1) / 0.1..4 (V2, V4), Vtransform 1 (hc 0, 1) and 2 (hc 0, 10, 250), h from 1 m to 5000 m")
+
+
+class _Checked(np.ndarray):
+    """ndarray that refuses negative (wrapping) and out-of-range integer indices."""
+
+    def __getitem__(self, idx):
+        tup = idx if isinstance(idx, tuple) else (idx,)
+        for ax, i in enumerate(tup):
+            if isinstance(i, (int, np.integer)) and not (0 <= int(i) < self.shape[ax]):
+                raise IndexError(f"index {int(i)} outside axis {ax} of size {self.shape[ax]}")
+        return np.asarray(super().__getitem__(idx)) if not isinstance(idx, tuple) or any(isinstance(i, slice) for i in tup) else super().__getitem__(idx)
+
+
+def kernel_bounds_bounded(p):
+    """Bounded stand-in for C17: the kernels' Python source (numba .py_func) is run with bounds-checked arrays on
+    boundary positions, subgrids, fast flow towards the open boundary, all schemes, surface and bottom depths."""
+    import ladim.ROMS as RM
+    import ladim.tracker as TR
+    from ladim.ROMS import Forcing, Grid
+    from ladim.state import State
+    from ladim.timekeeper import TimeKeeper
+    from ladim.tracker import Tracker
+
+    tier = p.get("tier", "quick")
+    cases, failures, samples = 0, [], []
+    saved = (RM.trilinear, RM.z2s_kernel, TR.RKstep, TR.clip)
+    tri, zk = RM.trilinear.py_func, RM.z2s_kernel.py_func
+
+    def tri_checked(F, X, Y, K, A):
+        return tri(np.asarray(F).view(_Checked), X, Y, K, A)
+
+    def zk_checked(I, J, Z, z_rho):
+        return zk(I, J, Z, np.asarray(z_rho).view(_Checked))
+
+    RM.trilinear, RM.z2s_kernel = tri_checked, zk_checked
+    try:
+        with Scratch() as d:
+            make_roms_file(d / "f.nc", imax0=9, jmax0=8, kmax=3, times=[0, 7200], u=lambda t, tv, K, J, I: 5.0 + 0 * I, v=lambda t, tv, K, J, I: -4.0 + 0 * I, h=30.0)
+            subgrids = [None, (1, 8, 1, 7), (2, 6, 2, 6), (3, 8, 1, 5)]
+            if tier == "thorough":
+                subgrids += [(1, 4, 1, 4), (4, 8, 3, 7), (-6, -1, -5, -1)]
+            for sub in subgrids:
+                for sch in ("EF", "RK2", "RK4"):
+                    for rev in (False, True):
+                        timer = TimeKeeper(start="2020-01-01T00:00:00" if not rev else "2020-01-01T02:00:00", stop="2020-01-01T02:00:00" if not rev else "2020-01-01T00:00:00", dt=600, time_reversal=rev)
+                        grid = Grid(d / "f.nc", subgrid=sub)
+                        e = 1e-6
+                        xs = [grid.xmin + 0.5 + e, grid.xmax - 0.5 - e, 0.5 * (grid.xmin + grid.xmax)]
+                        ys = [grid.ymin + 0.5 + e, grid.ymax - 0.5 - e, 0.5 * (grid.ymin + grid.ymax)]
+                        X = np.array([x for x in xs for y in ys])
+                        Y = np.array([y for x in xs for y in ys])
+                        ok = grid.ingrid(X, Y)
+                        X, Y = X[ok], Y[ok]
+                        if len(X) == 0:
+                            continue
+                        Z = np.resize(np.array([-5.0, 0.0, 4.9, 15.0, 30.0, 45.0]), len(X)).astype(float)
+                        state = State()
+                        state.append(X=X, Y=Y, Z=Z)
+                        modules = dict(time=timer, grid=grid, state=state)
+                        force = Forcing(modules=modules, filename=d / "f.nc")
+                        modules["forcing"] = force
+                        trk = Tracker(advection=sch, diffusion=0.0, modules=modules)
+                        cases += 1
+                        try:
+                            for _ in range(3):
+                                timer.update()
+                                force.update()
+                                trk.update()
+                        except IndexError as ex:
+                            failures.append(dict(subgrid=sub, scheme=sch, reversed=rev, what=str(ex)))
+                        finally:
+                            force.close()
+            samples.append(dict(subgrid=subgrids[2], scheme="RK4", positions="valid-region corners +- 1e-6, depths -5..45 m in 30 m water, 5 m/s towards the open boundary"))
+    finally:
+        RM.trilinear, RM.z2s_kernel, TR.RKstep, TR.clip = saved
+    return dict(cases=cases, failures=failures[:10], samples=samples, bound=f"{len(subgrids)} subgrids x 3 schemes x forward/reversed x 3 steps, 9 boundary positions, 6 depths")
